@@ -53,7 +53,8 @@ type world struct {
 	ts      map[string]*sess.Conn
 	owner   map[string]string   // test session -> user it is authenticated as (as the model says)
 	cur     map[string]sess.Act // test session -> the last step of it (nphase .. nidle: where the model says it is)
-	idleBox map[string]string   // test session in IDLE -> its selected mailbox as projected when the IDLE began
+	idleBox map[string]string   // test session in IDLE -> its selected mailbox as projected after the session's last step before the IDLE
+	lastBox map[string]string   // test session -> its selected mailbox as projected after its last step
 	rend    *sess.Renderer
 	base    map[string]*proj
 	armed   bool
@@ -83,7 +84,7 @@ func newWorld(r *ev.Run, family string, jailMs int, seed int64, st *stats) (*wor
 		return nil, err
 	}
 	w := &world{r: r, family: family, jailMs: jailMs, srv: srv, obs: map[string]*sess.Conn{}, ts: map[string]*sess.Conn{},
-		owner: map[string]string{}, cur: map[string]sess.Act{}, idleBox: map[string]string{}, rend: sess.NewRenderer(seed), base: map[string]*proj{}, stats: st}
+		owner: map[string]string{}, cur: map[string]sess.Act{}, idleBox: map[string]string{}, lastBox: map[string]string{}, rend: sess.NewRenderer(seed), base: map[string]*proj{}, stats: st}
 	for _, u := range []string{"u1", "u2"} {
 		c, err := sess.Dial(srv.Addr, watch)
 		if err != nil {
@@ -572,8 +573,10 @@ func (w *world) exec(a *sess.Act, preKey string) (bool, error) {
 	}
 	if o.Status == "CONT" && a.X == "IDLE" {
 		c.IdleTag = tag
-		if a.NSel != "none" && w.base[a.AsUser] != nil {
-			w.idleBox[a.S] = w.base[a.AsUser].Box[a.NSel]
+		// what the session has been told so far is the mailbox as of its previous step: changes since then are
+		// announced when the IDLE begins, later ones while it lasts
+		if v, ok := w.lastBox[a.S]; ok && a.NSel != "none" {
+			w.idleBox[a.S] = v
 		}
 	} else if a.InIdle {
 		c.IdleTag = ""
@@ -583,7 +586,7 @@ func (w *world) exec(a *sess.Act, preKey string) (bool, error) {
 			if now := w.base[a.AsUser].Box[w.cur[a.S].NSel]; now == was {
 				for _, l := range o.Untagged {
 					if reExists.MatchString(l.Text) || reFetch.MatchString(l.Text) || strings.HasSuffix(l.Text, " EXPUNGE") {
-						w.violate(sig+"/foreign-update", fmt.Sprintf("the idle session of %s was sent %q although its selected mailbox %q did not change during the IDLE", a.AsUser, l.Text, w.cur[a.S].NSel))
+						w.violate(sig+"/foreign-update", fmt.Sprintf("the idle session of %s was sent %q although its selected mailbox %q has not changed since the step of this session before the IDLE", a.AsUser, l.Text, w.cur[a.S].NSel))
 					}
 				}
 			}
@@ -655,6 +658,14 @@ func (w *world) exec(a *sess.Act, preKey string) (bool, error) {
 		return false, nil
 	}
 	w.cur[a.S] = *a
+	if a.NSel != "none" && a.NSel != "" && after[a.NUser] != nil {
+		// only steps after which nothing is held back for the session: a new snapshot, or NOOP / CHECK
+		if o.Status == "OK" && (strings.HasPrefix(a.X, "SELECT_") || strings.HasPrefix(a.X, "EXAMINE_") || a.X == "NOOP" || a.X == "CHECK") {
+			w.lastBox[a.S] = after[a.NUser].Box[a.NSel]
+		}
+	} else {
+		delete(w.lastBox, a.S)
+	}
 
 	// 4. keep the mailboxes populated for the next step
 	selected := map[string][]string{}
